@@ -15,3 +15,4 @@ import Cstl.Hash.Props
 import Cstl.TreeL.Props
 import Cstl.TreeL.Tie
 import Cstl.TreeL.TieHeap
+import Cstl.Mem.Props
